@@ -3,6 +3,8 @@
     quinn-proto/src/connection/streams/{state,recv,mod}.rs by the correspondence check on every
     run ([FlowRecv.run] compared verbatim, [FlowRecv.oracle] evaluated on the implementation). *)
 From QV Require Import Lib.Tac Lib.Corr Model.FlowRecv Proofs.FlowRecvProofs Proofs.FlowRecvInv.
+From QV Require Lib.Bytes Model.DatagramState Proofs.DatagramProofs.
+From Coq Require Import List. Import ListNotations.
 Open Scope Z_scope.
 
 (** * over_limit_rejected *)
@@ -176,3 +178,30 @@ Example C06_example_flow_control :
   snd (received true 7 0 1 false s) = Err STREAM_LIMIT_ERROR /\
   data_recvd (fst (received true 3 0 16 false s)) = 16.
 Proof. vm_compute. repeat split; reflexivity. Qed.
+
+(** * Unread DATAGRAM payloads are bounded by the configured datagram receive buffer
+    (model Model/DatagramState.v, tied to connection/datagrams.rs by the `datagrams`
+    correspondence; proofs shared with C16).  An oversized DATAGRAM frame (or any DATAGRAM frame
+    when datagrams are disabled: no window) is refused — [Connection] turns that into
+    PROTOCOL_VIOLATION — and leaves the buffer untouched; an accepted one evicts the OLDEST
+    unread datagrams, as many as needed and no more, so that the bytes held for the application
+    never exceed the window [x], whatever sizes arrived before. *)
+Theorem C06_datagram_buffer_bounded : forall s d x,
+  DatagramProofs.Inv s -> Bytes.zlen d <= x ->
+  exists s' pre kept,
+    DatagramState.received s d (Some x) = DatagramState.Ok (s', Some (DatagramState.recv_buffered s =? 0)) /\
+    DatagramState.incoming s = pre ++ kept /\ DatagramState.incoming s' = kept ++ [d] /\
+    DatagramState.recv_buffered s' = DatagramState.sum_len (DatagramState.incoming s') /\
+    DatagramState.recv_buffered s' <= x.
+Proof.
+  intros s d x I L.
+  destruct (DatagramProofs.receive_overflow_drops_oldest s d x I L) as (s' & pre & kept & A & B & C & D & E & _).
+  exists s', pre, kept. repeat split; assumption.
+Qed.
+Print Assumptions C06_datagram_buffer_bounded.
+
+Theorem C06_oversized_datagram_refused : forall s d w,
+  (match w with None => True | Some x => x < Bytes.zlen d end) ->
+  DatagramState.received s d w = DatagramState.Ok (s, None).
+Proof. exact DatagramProofs.receive_rejects. Qed.
+Print Assumptions C06_oversized_datagram_refused.
